@@ -162,3 +162,70 @@ func VerifC01Equal(h *verifh.H) {
 	h.Assert(h.Iff(equal, same), "a write is treated as identical iff props, refs and deleted flag are identical")
 	h.Observe("equal", equal)
 }
+
+// vValueFamily: property values other than strings, as the JSON decoder
+// (stored side: float64, []interface{}, map) and a transform (submitted side:
+// int, int64, float64, nested []interface{}, nested *Entity) produce them.
+// canon is the value's JSON text: two values denote the same property value
+// iff their canon texts are equal.
+type vValue struct {
+	v     interface{}
+	canon string
+}
+
+func vValueFamily() []vValue {
+	sub := func(v string) *Entity {
+		e := NewEntity("ns0:sub", 0)
+		e.Properties["ns0:n"] = v
+		return e
+	}
+	return []vValue{
+		{int(10), "10"},
+		{int64(10), "10"},
+		{float64(10), "10"},
+		{float64(10.5), "10.5"},
+		{"10", `"10"`},
+		{true, "true"},
+		{[]interface{}{int64(1), int64(2)}, "[1,2]"},
+		{[]interface{}{float64(1), float64(2)}, "[1,2]"},
+		{[]interface{}{float64(1), float64(3)}, "[1,3]"},
+		{[]interface{}{[]interface{}{int64(10), int64(59)}, []interface{}{int64(11), int64(60)}}, "[[10,59],[11,60]]"},
+		{[]interface{}{[]interface{}{float64(10), float64(59)}, []interface{}{float64(11), float64(60)}}, "[[10,59],[11,60]]"},
+		{[]interface{}{[]interface{}{int(10), int(59)}, []interface{}{int(11), int(61)}}, "[[10,59],[11,61]]"},
+		{[]interface{}{"a", int64(1)}, `["a",1]`},
+		{[]interface{}{"a", float64(1)}, `["a",1]`},
+		{[]interface{}{sub("x")}, `[sub:x]`},
+		{[]interface{}{sub("y")}, `[sub:y]`},
+	}
+}
+
+// VerifC01EqualValues: IsEntityEqual over non-string property values. The
+// stored side is what the write path compares against — the previous version
+// decoded from its stored JSON — the submitted side is the value as a client
+// batch (JSON-decoded) or a transform (Go ints, nested slices, nested
+// entities) hands it in. A write is treated as identical iff the two values
+// denote the same JSON value; so re-running a job that produces the same
+// numbers, nested arrays or sub-entities adds no version, and a changed number
+// inside a nested array is not dropped.
+func VerifC01EqualValues(h *verifh.H) {
+	fam := vValueFamily()
+	pv := fam[h.Choice("prev", len(fam))]
+	tv := fam[h.Choice("this", len(fam))]
+	prev := NewEntity("ns0:e1", 7)
+	prev.Properties["ns0:v"] = pv.v
+	this := NewEntity("ns0:e1", 7)
+	this.Properties["ns0:v"] = tv.v
+	if h.Choice("thisDecoded", 2) == 1 {
+		// the submitted side came through the JSON parser as well
+		b, _ := jsonMarshal(this)
+		this = &Entity{}
+		h.Assert(jsonUnmarshal(b, this) == nil, "submitted version decodes")
+	}
+	prevJSON, _ := jsonMarshal(prev)
+	thisJSON, _ := jsonMarshal(this)
+	stored := &Entity{}
+	h.Assert(jsonUnmarshal(prevJSON, stored) == nil, "stored version decodes")
+	equal := IsEntityEqual(prevJSON, thisJSON, stored, this)
+	h.Assert(equal == (pv.canon == tv.canon), "a write is treated as identical iff the property values denote the same JSON value :: prev="+pv.canon+" this="+tv.canon)
+	h.Observe("equal", equal)
+}
